@@ -315,7 +315,7 @@ class CHText:
     def strip_colors(cls, text: str) -> str:
         """Colorer-formatted string -> same string w/o coloring."""
         if cls._SEQ_RE is None:
-            cls._SEQ_RE = re.compile("\033\\[[;\\d]*m")
+            cls._SEQ_RE = re.compile("\033\\[[;:\\d]*m")
 
         return re.sub(cls._SEQ_RE, "", text)
 
